@@ -1,4 +1,110 @@
+/-
+Property C14 — object variables take exactly one allowed value; equality means same value.
+
+`Ov` (OratioModel/Sat/Ov.lean) models `smt::ov_theory` on top of the root-level encoder model
+`Enc` of C13: each object variable is an association list value ↦ guard literal.  Histories
+of assume/pop over the guard literals are the business of C07/C08; the statements below hold
+for every state reachable by `newVar / newVarLits / newEq` and every total assignment of the
+guard literals that satisfies the network's clauses, which is what such a history ends in.
+-/
 import OratioModel
+import OratioProofs.Properties.C13
+import OratioProofs.Lemmas.Ov
+
 namespace Oratio
-theorem C14_placeholder : Ov.init.doms.length = 0 := by decide
+open Enc
+
+/-! ## vocabulary -/
+
+/-- in assignment `α`, object variable `v` takes value `k` and no other value -/
+def Ov.Takes (α : Asg) (s : Ov) (v k : Nat) : Prop :=
+  (∃ l, Ov.lookupVal (s.dom v) k = some l ∧ α.lit l = true) ∧
+  ∀ e ∈ s.dom v, e.1 ≠ k → α.lit e.2 = false
+
+/-- `v` takes exactly one of its values -/
+def Ov.OneValue (α : Asg) (s : Ov) (v : Nat) : Prop := ∃ k, Ov.Takes α s v k
+
+def Ov.WF (s : Ov) : Prop :=
+  s.enc.Inv ∧
+  (∀ d ∈ s.doms, (d.map (·.1)).Nodup ∧ d ≠ [] ∧ ∀ e ∈ d, e.2.var < s.enc.nvars) ∧
+  (∀ e ∈ s.eqs, e.1.1 < e.1.2 ∧ e.1.2 < s.doms.length ∧ e.2.var < s.enc.nvars)
+
+/-- meaning of an equality literal between `a` and `b` -/
+def Ov.EqMeans (s : Ov) (a b : Nat) (l : Lit) : Prop :=
+  ∀ α, Enc.Sat α s.enc → ∀ ka kb, Ov.Takes α s a ka → Ov.Takes α s b kb → (α.lit l = true ↔ ka = kb)
+
+/-- the invariant: well-formed, and every cached equality literal means equality -/
+def Ov.Inv (s : Ov) : Prop := s.WF ∧ ∀ e ∈ s.eqs, Ov.EqMeans s e.1.1 e.1.2 e.2
+
+/-! ## creation: exactly one value -/
+
+theorem C14_init_inv : Ov.init.Inv := by sorry
+
+/-- a variable created with the exactly-one clause takes exactly one of its values in every
+    model; nothing that was satisfiable before is lost -/
+theorem C14_exactly_one (s : Ov) (items : List Nat) (h : s.Inv) (hn : items.Nodup) (hl : 2 ≤ items.length) :
+    let r := s.newVar items true
+    r.2.Inv ∧ r.1 = s.doms.length ∧ (r.2.dom r.1).map (·.1) = items ∧
+    (∀ α, Enc.Sat α r.2.enc → Ov.OneValue α r.2 r.1) ∧
+    s.enc.Extends r.2.enc ∧ s.enc.Refines r.2.enc ∧
+    (∀ α k, Enc.Sat α s.enc → k ∈ items → ∃ α', Enc.Sat α' r.2.enc ∧ (∀ v, v < s.enc.nvars → α' v = α v) ∧ Ov.Takes α' r.2 r.1 k) := by sorry
+
+/-- the planner's variant (no exactly-one clause): the variable has one fresh guard per value and
+    the network is otherwise unchanged, so that ANY clause over the guards (the enum flaw's
+    exactly-one clause) decides how many values are taken -/
+theorem C14_unenforced (s : Ov) (items : List Nat) (h : s.Inv) (hn : items.Nodup) (hl : 2 ≤ items.length) :
+    let r := s.newVar items false
+    r.2.Inv ∧ (r.2.dom r.1).map (·.1) = items ∧ r.2.enc.clauses = s.enc.clauses ∧
+    (∀ e ∈ r.2.dom r.1, s.enc.nvars ≤ e.2.var ∧ e.2.sign = true) ∧ ((r.2.dom r.1).map (·.2)).Nodup ∧
+    s.enc.Extends r.2.enc ∧ s.enc.Refines r.2.enc := by sorry
+
+/-- a singleton domain is represented by the constant TRUE: the variable always takes its value -/
+theorem C14_singleton (s : Ov) (i : Nat) (h : s.Inv) :
+    let r := s.newVar [i] true
+    r.2.Inv ∧ r.2.enc = s.enc ∧ r.2.dom r.1 = [(i, Lit.trueLit)] ∧ ∀ α, Enc.Sat α r.2.enc → Ov.Takes α r.2 r.1 i := by sorry
+
+/-- a derived variable (`new_var(lits, vals)`) adds nothing to the network -/
+theorem C14_newVarLits (s : Ov) (lits : List Lit) (vals : List Nat) (h : s.Inv)
+    (hl : lits.length = vals.length) (hne : lits ≠ []) (hr : ∀ l ∈ lits, l.var < s.enc.nvars) :
+    let r := s.newVarLits lits vals
+    r.2.Inv ∧ r.2.enc = s.enc ∧ ∀ k l, Ov.lookupVal (r.2.dom r.1) k = some l → (k, l) ∈ vals.zip lits := by sorry
+
+/-! ## the reported domain -/
+
+/-- `value(v)` is exactly the set of values whose guard is not false, and it contains the value
+    taken in any model that extends the current root values -/
+theorem C14_value_is_not_excluded (s : Ov) (v : Nat) :
+    (∀ k, k ∈ s.value v ↔ ∃ l, (k, l) ∈ s.dom v ∧ s.enc.value l ≠ some false) ∧
+    (s.Inv → ∀ α k, Enc.Sat α s.enc → Ov.Takes α s v k → k ∈ s.value v) := by sorry
+
+/-- `allows(v, k)` is the guard of `k`, or FALSE when `k` is not in the domain -/
+theorem C14_allows (s : Ov) (v k : Nat) :
+    (∀ l, Ov.lookupVal (s.dom v) k = some l → s.allows v k = l) ∧
+    (Ov.lookupVal (s.dom v) k = none → s.allows v k = Lit.falseLit) := by sorry
+
+/-! ## equality -/
+
+/-- the equality literal is true exactly when both variables take the same value and false
+    exactly when they take different ones; requesting it loses no model -/
+theorem C14_eq_iff_same (s : Ov) (a b : Nat) (h : s.Inv) (ha : a < s.doms.length) (hb : b < s.doms.length) :
+    let r := s.newEq a b
+    r.2.Inv ∧ r.1.var < r.2.enc.nvars ∧ r.2.doms = s.doms ∧
+    Ov.EqMeans r.2 a b r.1 ∧
+    s.enc.Extends r.2.enc ∧ s.enc.Refines r.2.enc := by sorry
+
+/-- variables with disjoint domains are never equal: the literal is the constant FALSE and
+    nothing is added -/
+theorem C14_disjoint_never_equal (s : Ov) (a b : Nat) (h : s.Inv) (hab : a ≠ b)
+    (hd : ∀ e ∈ s.dom a, ∀ f ∈ s.dom b, e.1 ≠ f.1) :
+    s.newEq a b = (Lit.falseLit, s) := by sorry
+
+/-- the equality of a variable with itself is TRUE; a repeated request (either order) returns
+    the same literal and leaves the network unchanged -/
+theorem C14_eq_cache (s : Ov) (a b : Nat) (h : s.Inv) (ha : a < s.doms.length) (hb : b < s.doms.length) :
+    s.newEq a a = (Lit.trueLit, s) ∧
+    (let r := s.newEq a b; r.2.newEq a b = (r.1, r.2) ∧ r.2.newEq b a = (r.1, r.2)) := by sorry
+
+/-! ## non-vacuity -/
+example : ∃ r, r = ((Ov.init.newVar [1, 2, 3] true).2.newVar [2, 3, 4] true).2.newEq 0 1 ∧ r.1.var ≠ 0 := by sorry
+
 end Oratio
